@@ -188,8 +188,27 @@ func (a *acctTarget) claimRevoked(present bool, sub string, iat int64) bool {
 	uc := &jwt.UserClaims{}
 	uc.Subject = sub
 	uc.IssuedAt = iat
-	return a.ac.IsClaimRevoked(uc)
+	plain := a.ac.IsClaimRevoked(uc)
+	// nothing else the claim holds matters: the same question with every other key of the histories (and the
+	// wildcard name) in the issuer, issuer-account, name, audience and id fields
+	for _, other := range []string{"a", "b", "*"} {
+		if other == sub {
+			continue
+		}
+		d := &jwt.UserClaims{}
+		d.Subject, d.IssuedAt = sub, iat
+		d.Issuer, d.IssuerAccount, d.Name, d.Audience, d.ID = other, other, other, other, other
+		d.Tags.Add(other)
+		if a.ac.IsClaimRevoked(d) != plain {
+			c09Dressed = fmt.Sprintf("the answer for subject %q issued at %d changes when issuer, issuer account, name, audience and id are %q", sub, iat, other)
+			return !plain // reported as a wrong answer for this (subject, issue time)
+		}
+	}
+	return plain
 }
+
+// set when a claim's other fields changed an IsClaimRevoked answer (the replay names the fields)
+var c09Dressed string
 
 type expTarget struct {
 	ac *jwt.AccountClaims // the export lives in an account so that it can go through the codec
@@ -229,7 +248,21 @@ func (e *expTarget) claimRevoked(present bool, sub string, iat int64) bool {
 	ac := &jwt.ActivationClaims{}
 	ac.Subject = sub
 	ac.IssuedAt = iat
-	return e.ex().IsClaimRevoked(ac)
+	plain := e.ex().IsClaimRevoked(ac)
+	for _, other := range []string{"a", "b", "*"} {
+		if other == sub {
+			continue
+		}
+		d := &jwt.ActivationClaims{}
+		d.Subject, d.IssuedAt = sub, iat
+		d.Issuer, d.IssuerAccount, d.Name, d.Audience, d.ID = other, other, other, other, other
+		d.ImportSubject = jwt.Subject(other)
+		if e.ex().IsClaimRevoked(d) != plain {
+			c09Dressed = fmt.Sprintf("the answer for subject %q issued at %d changes when issuer, issuer account, name, audience and id are %q", sub, iat, other)
+			return !plain
+		}
+	}
+	return plain
 }
 
 func observe(t revTarget, ops []rop) *revObs {
@@ -313,7 +346,7 @@ func runC09(c *Ctx) {
 				want := !q.Present || q.Iat == 0 || q.Sub == "" || sp.answer(q.Sub, q.Iat)
 				if q.A != want {
 					c.violation(who+": IsClaimRevoked differs from the fail-closed rule",
-						map[string]interface{}{"history": ops, "claim_present": q.Present, "sub": q.Sub, "iat": q.Iat, "impl": q.A, "spec": want, "target": who})
+						map[string]interface{}{"history": ops, "claim_present": q.Present, "sub": q.Sub, "iat": q.Iat, "impl": q.A, "spec": want, "target": who, "note": c09Dressed})
 					return
 				}
 			}
